@@ -14,7 +14,8 @@ RULE = ("Engine F: generated factories, every node type with 1-4 in/out edges, p
         "(ROUND_ROBIN), is constant (constant), and equals the recorded stats list; out side - same per finished item "
         "(items finishing in one instant are matched as a multiset); FIRST_AVAILABLE (blocking): when the node commits to "
         "an edge every other request of that batch is cancelled in the same kernel step and none with a lower index was "
-        "already granted; FIRST_AVAILABLE (non-blocking): the lowest index whose can_put() was true; recorded history == "
+        "already granted, and none with a lower index that is withdrawn while still pending sits on a Buffer / Fleet edge able to serve "
+        "(room / an available unreserved item); FIRST_AVAILABLE (non-blocking): the lowest index whose can_put() was true; recorded history == "
         "actual routing. Out-of-range answer: an exception no later than the instant of use and the item is routed nowhere. "
         "Non-trivial: >= 2 edges on a side, >= 4 items routed there, and at least once the preferred edge was unavailable.")
 ASSUMPTIONS = ["Source keeps no selection history: only its routing is compared",
